@@ -9,7 +9,8 @@ THEOREMS = ["UrcuVerif.Handshake.no_lost_wakeup", "UrcuVerif.Handshake.gp_futex_
             "UrcuVerif.WaitNode.waiter_teardown_safe", "UrcuVerif.WaitNode.waiter_no_lost_wakeup",
             "UrcuVerif.WaitNode.inv_step",
             "UrcuVerif.QsbrHs.qsbr_no_lost_wakeup", "UrcuVerif.QsbrHs.qsbr_armed_visible", "UrcuVerif.QsbrHs.inv_step",
-            "UrcuVerif.Locks.lock_order_deadlock_free", "UrcuVerif.Locks.lock_mutual_exclusion", "UrcuVerif.Locks.inv_step"]
+            "UrcuVerif.Locks.lock_order_deadlock_free", "UrcuVerif.Locks.lock_mutual_exclusion", "UrcuVerif.Locks.inv_step",
+            "UrcuVerif.QsbrHs.Neg.lost_wakeup_without_arm_fence", "UrcuVerif.QsbrHs.Neg.real_model_rejects"]
 TRUSTED = ["Lean 4.33 kernel; axioms ⊆ {propext, Classical.choice, Quot.sound}",
            "x86-TSO machine; futex contract (FUTEX_WAIT checks the value and sleeps atomically; spurious/EINTR returns unconstrained; system calls drain the store buffer); sys_membarrier = forced fence",
            "liveness is proved as 'sleeper always has a non-stuck waker with a strictly decreasing own-step measure'; 'eventually returns' additionally needs a fair scheduler",
@@ -21,7 +22,7 @@ OWN = {"DEADLOCK", "BUDGET", "SELFLOCK", "BADUNLOCK"}
 def run(chk):
     chk.assumptions = TRUSTED
     chk.cov["trusted_base"] = TRUSTED
-    chk.proof_part(["UrcuVerif.Props.C02", "drv_gp"], "UrcuVerif.Props.C02", THEOREMS,
+    chk.proof_part(["UrcuVerif.Props.C02", "UrcuVerif.Neg.C02Qsbr", "drv_gp"], ["UrcuVerif.Props.C02", "UrcuVerif.Neg.C02Qsbr"], THEOREMS,
                    ["UrcuVerif.Handshake", "UrcuVerif.Gp.Locks", "UrcuVerif.Props.C02", "UrcuVerif.Machine"])
     chk.live_part()
     ok, log = gp_common.build()
@@ -36,7 +37,22 @@ def run(chk):
         fails = waiter_stage(chk)
     h = chk.cov.get("branch_histogram", {})
     chk.cov["futex_paths"] = {k: v for k, v in h.items() if "futex" in k or "wake" in k or "waiter" in k}
-    gp_common.report(chk, fails, OWN, gp_common.search_own(chk, OWN, "liveness", 300 if chk.tier == "quick" else 3000))
+    base_search = gp_common.search_own(chk, OWN, "liveness", 300 if chk.tier == "quick" else 3000)
+
+    def search():
+        # first the wait-node / compat-futex corner: merged callers asleep on their node, futex unavailable, polls interrupted
+        for flavor, memb, cname in [c for c in gp_common.CONFIGS if c[0] in ("memb", "mb")]:
+            for k in range(240 if chk.tier == "quick" else 1200):
+                faults = "spur=0,eintr=0,enosys=1000" if k % 2 == 0 else "spur=200,eintr=400,enosys=0"
+                extra = ["--parklen", "30000", "--nochurn", "--faults", faults, "--pswitch", str([5, 15, 30][k % 3])]
+                if k % 2 == 0:
+                    extra += ["--pollfaults", "300"]
+                r = gp_common.one(flavor, memb, chk.seed * 1000 + 700000 + k, 1 + k % 2, 3, 12, 3, extra)
+                if r["verdict"] == "oracle" and any(x in OWN for x in r["kinds"]):
+                    r["config"] = cname
+                    return r
+        return base_search()
+    gp_common.report(chk, fails, OWN, search)
 
 
 def waiter_stage(chk):
@@ -45,13 +61,17 @@ def waiter_stage(chk):
     spurious / EINTR returns injected into that futex wait.  Coverage of waiter_futex_{SLEEP,EINTR,SPURIOUS} is required."""
     hist = chk.cov.setdefault("branch_histogram", {})
     fails = []
-    n = 10 if chk.tier == "quick" else 120
+    n = 16 if chk.tier == "quick" else 160
     runs = 0
     for flavor, memb, cname in [c for c in gp_common.CONFIGS if c[0] in ("memb", "mb")]:
         for k in range(n):
             sd = chk.seed * 1000 + 500 + k
-            faults = ["spur=300,eintr=400,enosys=0", "spur=0,eintr=600,enosys=0", "spur=600,eintr=0,enosys=0", "spur=200,eintr=200,enosys=100"][k % 4]
-            r = gp_common.one(flavor, memb, sd, 1 + k % 2, 3, 12, 3, ["--parklen", "30000", "--nochurn", "--faults", faults, "--pswitch", str([5, 15, 30][k % 3])])
+            faults = (["spur=300,eintr=400,enosys=0", "spur=0,eintr=600,enosys=0", "spur=600,eintr=0,enosys=0", "spur=200,eintr=200,enosys=100"][k % 4]
+                      if k % 2 == 0 else "spur=0,eintr=0,enosys=1000")
+            extra = ["--parklen", "30000", "--nochurn", "--faults", faults, "--pswitch", str([5, 15, 30][k % 3])]
+            if "enosys=1000" in faults:
+                extra += ["--pollfaults", "300"]     # futex unavailable: the compat poll loop, interrupted by signals
+            r = gp_common.one(flavor, memb, sd, 1 + k % 2, 3, 12, 3, extra)
             chk.cov["evaluations"] += 1
             runs += 1
             if r["verdict"] == "ok":
@@ -65,7 +85,7 @@ def waiter_stage(chk):
         if fails:
             break
     chk.cov["waiter_stage_runs"] = runs
-    missing = [b for b in ("waiter_futex_SLEEP", "waiter_futex_EINTR", "waiter_futex_SPURIOUS") if not hist.get(b)]
+    missing = [b for b in ("waiter_futex_SLEEP", "waiter_futex_EINTR", "waiter_futex_SPURIOUS", "compat_poll_EINTR") if not hist.get(b)]
     chk.cov["waiter_stage_missing"] = missing
     if missing and not fails:
         chk.notes.append("waiter stage did not reach: " + ", ".join(missing))
